@@ -114,6 +114,28 @@ def rigid_jobs(ctx):
             variants.append({"kind": "rigid", "q": rand_quat(rng), "t": [0.0, 0.0, 0.0]})   # pure rotation
             jobs.append({"structure": st, "box": None, "seed": rng.randrange(1 << 30), "cutoff": 0.45,
                          "observables": obs, "variants": variants, "label": label, "T": T, "n_sphere_points": 480})
+    # DEGENERATE EXTENTS: exactly flat sheets in the coordinate planes and straight chains along the axes (all atoms share
+    # one or two coordinates), compared with their rotated images, for the neighbour observables
+    def flat(n, fixed):
+        pts = []
+        while len(pts) < n:
+            p = [rng.randrange(0, int(2.2 * U)) for _ in range(3)]
+            for k, v in fixed.items():
+                p[k] = v
+            if all(sum((p[k] - q[k]) ** 2 for k in range(3)) >= (0.12 * U) ** 2 for q in pts):
+                pts.append(p)
+        return pts
+    shapes = [("sheet-xy", {2: U}), ("sheet-xz", {1: 0}), ("sheet-yz", {0: 3 * U // 2}), ("line-x", {1: U, 2: U // 2}),
+              ("line-y", {0: 0, 2: 0}), ("line-z", {0: U, 1: 2 * U})]
+    for tag, fixed in shapes:
+        n = rng.choice([6, 14]) if tag.startswith("line") else rng.choice([20, 45])
+        E = ulp32(1.0 + 8.0)
+        variants = [{"kind": "ref"}] + [{"kind": "jitter", "eps": E, "seed": rng.randrange(1 << 30)} for _ in range(3)]
+        variants += [{"kind": "rigid", "q": rand_quat(rng), "t": rand_dir(rng, 1.0)} for _ in range(2 if quick else 6)]
+        variants.append({"kind": "rigid", "q": rand_quat(rng), "t": [0.0, 0.0, 0.0]})
+        jobs.append({"structure": {"xyz": flat(n, fixed), "grid": 10}, "box": None, "seed": rng.randrange(1 << 30),
+                     "cutoff": rng.choice([0.3, 0.45, 0.7]), "observables": ["distances", "neighbors", "neighborlist", "rg"],
+                     "variants": variants, "label": "degenerate/%s%d" % (tag, n), "T": 1.0})
     # A trajectory that CARRIES a unit cell but is analysed with periodic=False: plain Euclidean geometry, hence invariant
     # under rigid motion.  The cell (2.2 x 2.6 x 2.0 nm resp. sheared) is smaller than the protein, so a call that falls
     # back to the minimum image folds many of the requested separations and changes under rotation.
@@ -184,6 +206,43 @@ def lattice_jobs(ctx):
             jobs.append({"structure": {"xyz": pts, "grid": 10}, "box": box, "seed": rng.randrange(1 << 30),
                          "cutoff": round(min(0.45, 0.3 * wmin), 3), "observables": OBS_PERIODIC, "variants": variants,
                          "label": "random%d/%s" % (n, kind), "T": 0.0, "kind": kind})
+    # SMALL CELLS, cutoff just under half of the shorter edges (two or three voxel layers along y and z): neighbour
+    # searches under whole-system translation and per-atom lattice shifts
+    for rep in range(3 if quick else 16):
+        ly, lz = rng.uniform(1.0, 1.5), rng.uniform(1.0, 1.5)
+        lx = rng.uniform(1.0, 3.0)
+        cell = [[c05._g(lx), 0, 0], [0, c05._g(ly), 0], [0, 0, c05._g(lz)]]
+        if rep % 3 == 2:
+            cell[1][0] = c05._g(rng.uniform(-0.3, 0.3) * lx)
+            cell[2][0] = c05._g(rng.uniform(-0.3, 0.3) * lx)
+            cell[2][1] = c05._g(rng.uniform(-0.3, 0.3) * ly)
+        n = rng.choice([15, 40])
+        pts = []
+        while len(pts) < n:
+            f = [rng.random() for _ in range(3)]
+            p = [int(round(sum(f[k] * cell[k][j] for k in range(3)))) for j in range(3)]
+            if all(sum((p[k] - q[k]) ** 2 for k in range(3)) >= (0.08 * U) ** 2 for q in pts):
+                pts.append(p)
+        E = ulp32(4 * 8.0 * 3)
+        variants = [{"kind": "ref"}] + [{"kind": "jitter", "eps": E, "seed": rng.randrange(1 << 30)} for _ in range(3)]
+        for _ in range(2):
+            w = [rng.randrange(-3 * U, 3 * U) / U for _ in range(3)]
+            variants.append({"kind": "lattice", "shifts": "random", "range": 0, "seed": 1, "whole": w})
+        variants += [{"kind": "lattice", "shifts": "random", "range": 2, "seed": rng.randrange(1 << 30)},
+                     {"kind": "lattice", "shifts": "random", "range": 1, "seed": rng.randrange(1 << 30),
+                      "whole": [rng.randrange(-3 * U, 3 * U) / U for _ in range(3)]}]
+        wmin = min(cell[1][1], cell[2][2], cell[0][0]) / U
+        cut = round(rng.uniform(0.36, 0.49) * wmin, 3)
+        if rep % 3 == 1:
+            # rectangular cell with a y or z edge between cutoff and 2*cutoff (exactly two voxel layers along it): the
+            # neighbour relation 'some image within the cutoff' is still invariant under translation and lattice shifts
+            cut = round(rng.uniform(0.55, 0.9) * min(cell[1][1], cell[2][2]) / U, 3)
+            cell[0][0] = max(cell[0][0], c05._g(2.4 * cut))
+            pts = [[p[0] % cell[0][0], p[1], p[2]] for p in pts]
+        jobs.append({"structure": {"xyz": pts, "grid": 10}, "box": [[v / U for v in row] for row in cell],
+                     "seed": rng.randrange(1 << 30), "cutoff": cut,
+                     "observables": ["distances", "neighbors", "neighborlist"], "variants": variants,
+                     "label": "smallcell%d/%s" % (n, "triclinic" if rep % 3 == 2 else "ortho"), "T": 0.0, "kind": "smallcell"})
     # a protein in an orthorhombic and in a triclinic cell
     for box in ([[5.0, 0, 0], [0, 5.5, 0], [0, 0, 6.0]], [[5.0, 0, 0], [1.5, 5.5, 0], [-1.0, 2.0, 6.0]]):
         E = ulp32(4 * 8.0 * 3)
